@@ -289,7 +289,9 @@ class Explorer:
             w2 = clone(world, self.shared_memo)
             ctl = choice_mod.Controller(prefix)
             apply_event(w2, event, self.spec, ctl)
-            out.append((w2, list(ctl.taken)))
+            keep = getattr(self, "succ_filter", None)
+            if keep is None or keep(event, list(ctl.taken)):  # sharding by random answers (e.g. one initial assignment per shard)
+                out.append((w2, list(ctl.taken)))
             self.stats["choice_points"] += max(0, len(ctl.taken) - len(prefix))
             for i in range(len(prefix), len(ctl.taken)):
                 for alt in range(1, ctl.arity[i]):
@@ -297,29 +299,55 @@ class Explorer:
         return out
 
     def run(self, world0, report):
-        """report(kind, world, history, detail) is called for violations found by the spec."""
+        """report(kind, world, history, detail) is called for violations found by the spec.
+
+        schedule "dev:<base>:<n>" = delay-bounded exploration: the canonical schedule <base> plus every execution that departs from
+        it at most n times (a departure = taking another enabled event than the one <base> would take in that state; after it <base>
+        resumes). A state is re-expanded when it is reached again with a larger remaining budget."""
         spec = self.spec
         world0.mon["_spec"] = spec
+        dev_base, budget0 = None, None
+        if self.schedule.startswith("dev:"):
+            _, dev_base, n = self.schedule.split(":")
+            budget0 = int(n)
+            self.best_budget = {}
         d0 = self.digest(world0)
         self.seen.add(d0)
         self.stats["states"] += 1
-        # stack entries: (world, history(tuple chain), events list, next index)
-        evs0 = self._pick(enabled_events(world0, spec), 0)
+
+        def events_of(world, depth, budget):
+            evs = enabled_events(world, spec)
+            if dev_base is None:
+                return self._pick(evs, depth)
+            if len(evs) <= 1:
+                return evs
+            default = self._pick(evs, depth, dev_base)
+            if budget <= 0:
+                return default
+            return default + [e for e in evs if e != default[0]]
+
+        # stack entries: (world, history(tuple chain), events list, next index, depth, digest, remaining budget)
+        evs0 = events_of(world0, 0, budget0)
         first = getattr(self, "first_filter", None)
         if first is not None:  # sharding: this explorer only takes the given first event
             evs0 = [e for e in evs0 if list(e) == list(first)]
-        stack = [(world0, None, evs0, 0, 0, d0)]
+        stack = [(world0, None, evs0, 0, 0, d0, budget0)]
         self._end_or_continue(world0, None, stack[0][2], report)
+        if dev_base is not None:
+            self.best_budget[d0] = budget0
         if self.track_graph:
             self.hist_of[d0] = None
             if not evs0:
                 self.terminal.add(d0)
         while stack:
-            world, hist, events, idx, depth, dsrc = stack.pop()
+            world, hist, events, idx, depth, dsrc, budget = stack.pop()
             if idx >= len(events):
                 continue
-            stack.append((world, hist, events, idx + 1, depth, dsrc))
+            stack.append((world, hist, events, idx + 1, depth, dsrc, budget))
             ev = events[idx]
+            b2 = budget
+            if dev_base is not None and idx > 0:
+                b2 = budget - 1
             for w2, choices in self.successors(world, ev):
                 self.stats["transitions"] += 1
                 h2 = (hist, (list(ev), choices))
@@ -328,22 +356,27 @@ class Explorer:
                 if self.track_graph:
                     self.edges.setdefault(dsrc, set()).add(d)
                 if d in self.seen:
-                    self.stats["revisits"] += 1
-                    continue
-                self.seen.add(d)
-                self.stats["states"] += 1
+                    if dev_base is None or self.best_budget.get(d, -1) >= b2:
+                        self.stats["revisits"] += 1
+                        continue
+                    self.best_budget[d] = b2  # reached again with more departures left: expand again
+                else:
+                    self.seen.add(d)
+                    self.stats["states"] += 1
+                    if dev_base is not None:
+                        self.best_budget[d] = b2
                 if self.track_graph:
-                    self.hist_of[d] = h2
+                    self.hist_of.setdefault(d, h2)
                 if depth + 1 > self.stats["max_depth"]:
                     self.stats["max_depth"] = depth + 1
                 if self.max_states and self.stats["states"] >= self.max_states:
                     self.capped = True
                     self.open_ends.add(d)
                     continue
-                evs2 = self._pick(enabled_events(w2, spec), depth + 1)
+                evs2 = events_of(w2, depth + 1, b2)
                 self._end_or_continue(w2, h2, evs2, report)
                 if evs2:
-                    stack.append((w2, h2, evs2, 0, depth + 1, d))
+                    stack.append((w2, h2, evs2, 0, depth + 1, d, b2))
                 elif self.track_graph:
                     self.terminal.add(d)
         return self.stats
@@ -374,20 +407,21 @@ class Explorer:
         bad.sort(key=lambda d: depth(self.hist_of.get(d)))
         return [(d, self.hist_of.get(d)) for d in bad]
 
-    def _pick(self, events, depth=0):
-        if self.schedule == "all" or len(events) <= 1:
+    def _pick(self, events, depth=0, schedule=None):
+        schedule = schedule or self.schedule
+        if schedule == "all" or len(events) <= 1:
             return events
-        if self.schedule == "first":
+        if schedule == "first":
             return events[:1]
-        if self.schedule == "last":
+        if schedule == "last":
             return events[-1:]
-        if self.schedule in ("alt", "alt2"):  # alternate first/last enabled event with the step parity
-            odd = (depth + (1 if self.schedule == "alt2" else 0)) % 2
+        if schedule in ("alt", "alt2"):  # alternate first/last enabled event with the step parity
+            odd = (depth + (1 if schedule == "alt2" else 0)) % 2
             return events[-1:] if odd else events[:1]
-        if self.schedule in ("alt3", "alt4"):  # period-3 pattern: changes the arrival order from cycle to cycle
-            r = (depth + (1 if self.schedule == "alt4" else 0)) % 3
+        if schedule in ("alt3", "alt4"):  # period-3 pattern: changes the arrival order from cycle to cycle
+            r = (depth + (1 if schedule == "alt4" else 0)) % 3
             return events[-1:] if r == 0 else events[:1]
-        raise ValueError(self.schedule)
+        raise ValueError(schedule)
 
     def _end_or_continue(self, world, hist, events, report):
         if events:
@@ -400,6 +434,31 @@ class Explorer:
 
     def digest_end(self, world):
         return repr(self.spec.canon_extra(world)) + repr(sorted(world.finished)) + repr(world.exception)
+
+
+def run_single(world, spec, schedule, report, max_steps=200000):
+    """ONE execution, in place (no snapshots, no state caching), under a canonical schedule, every random draw answered 0.
+    About 20x cheaper than Explorer.run on the same path: meant for wide instance sweeps. check_state after every event,
+    check_end at quiescence; report(key, what, world, history) as for the Explorer (the history replays with netx.replay).
+    Returns {"steps", "ended", "draws_with_alternatives"}."""
+    world.mon["_spec"] = spec
+    picker = Explorer(spec, schedule=schedule)
+    hist, depth, alts = None, 0, 0
+    while depth < max_steps:
+        evs = picker._pick(enabled_events(world, spec), depth)
+        if not evs:
+            break
+        ev = evs[0]
+        ctl = choice_mod.Controller()
+        apply_event(world, ev, spec, ctl)
+        alts += sum(1 for a in ctl.arity if a > 1)
+        hist = (hist, (list(ev), list(ctl.taken)))
+        spec.check_state(world, ev, lambda key, what, h=hist: report(key, what, world, h))
+        depth += 1
+    ended = depth < max_steps
+    if ended:
+        spec.check_end(world, lambda key, what, h=hist: report(key, what, world, h))
+    return {"steps": depth, "ended": ended, "draws_with_alternatives": alts}
 
 
 def site(where):
